@@ -32,6 +32,10 @@ CHECKS = {
   "differential monitor (library vs library) with an independent encryptor: encrypted file against the hand-fed plaintext, full state digest comparison",
   "Plaintext programs (generated control-flow and data programs plus `n RD <n arbitrary bytes>` definitions read through the decrypting scanner, optionally leaving dictionaries open) are encrypted by the harness's own Type 1 cipher with random legal 4-byte prefixes and written as binary or as hex (lower/upper/mixed case, white space at any position after the first four digits, any line width), after any white-space run following `eexec`, with or without `currentfile closefile`, with trailers (512 zeros + cleartomark, clear tokens, a second encrypted section). One interpreter executes the file; a second one executes the clear prefix, gets systemdict pushed, executes the plaintext, gets the dictionary stack cut back and executes the trailer. Error outcome and complete state digests (stacks, all dictionaries, sharing, binary strings byte-exact) must agree.",
   "Trusted: harness/ref/cipher.go. Equivalence of one Execute call with several consecutive calls is C12's subject and assumed here. Exactly one white-space byte after closefile belongs to the section; plaintexts containing `stop` or exhausting the budget are not compared."),
+ "C09": ("exploration", "DESIGN.md 11/C09",
+  "round-trip monitor: Read(Write(F)) compared field by field with F, all four formats, seeded fonts over the writable domain",
+  "Generated fonts (1-300 glyphs, names over regular characters including bytes >= 0x80 and number/operator look-alikes, integer advance widths including vertical ones, well-formed contours with integer or fractional coordinates including every h/v-specialised curve shape and near misses of the writer's 1e-6 tests, stems, info strings over all byte values, FontMatrix and Private value classes, encodings absent / standard / subsets of standard / permutations / repeated and missing names / partial, creation times in several kinds of zone) are written in PFA, PFB, binary and no-eexec form and read back; glyph set, outlines (exact for all-integer glyphs, 0.005 otherwise), widths, stems, the name at each code, strings byte for byte, matrix, private values and creation instant are compared.",
+  "Fonts contain .notdef; BlueScale within 2e-6 of the default is left to C10. Eight glyph names that the CharStrings idiom itself looks up (RD ND def end string exch readstring pop) are carried as known findings through pinned cases and kept out of the random generator."),
 }
 
 NOT_CLAIMED = {}
